@@ -67,8 +67,26 @@ class U(State):  # required attribute of a union type: its validation failure is
     v: int | str
 
 
-FAMILY: dict[str, type] = {"A": A, "B": B, "R": R, "A2": A2, "G[int]": G[int], "G[str]": G[str], "G": G, "F": F, "U": U, "M": M}
-DEFAULTABLE = {"A", "B", "A2", "F", "M"}  # constructible without arguments
+def _twin() -> type:
+    class Tw(State):  # made by a factory: every call gives a DISTINCT type with the same module and qualified name
+        v: int = 0
+
+    return Tw
+
+
+T1, T2 = _twin(), _twin()
+# two specialisations whose arguments have the same __name__ (haiway spells both "G[Sequence]"): still different types
+GQ1, GQ2 = G[Sequence[int]], G[Sequence[str]]
+
+FAMILY: dict[str, type] = {"A": A, "B": B, "R": R, "A2": A2, "G[int]": G[int], "G[str]": G[str], "G": G, "F": F, "U": U, "M": M, "T1": T1, "T2": T2, "GQ1": GQ1, "GQ2": GQ2}  # fmt: skip
+DEFAULTABLE = {"A", "B", "A2", "F", "M", "T1", "T2"}  # constructible without arguments
+
+
+def family_name(T: type) -> str:
+    for n, t in FAMILY.items():
+        if t is T:
+            return n
+    return T.__name__
 
 
 def make_state(sv) -> State:
@@ -76,6 +94,12 @@ def make_state(sv) -> State:
     T = FAMILY[name]
     if name == "G[str]":
         return T(v=str(sv["v"]))
+    if name == "M" and sv["v"] is None:
+        return T()  # the attribute is left MISSING: still a complete instance, never a "partial update"
+    if name == "GQ1":
+        return T(v=(sv["v"],))
+    if name == "GQ2":
+        return T(v=(str(sv["v"]),))
     return T(v=sv["v"])
 
 
@@ -297,9 +321,31 @@ class ProgFalsy(ProgErr):
         return 0
 
 
+class ProgStrRaises(ProgErr):
+    """an exception that cannot be rendered (its message is computed and the computation fails): still the body's exception"""
+
+    def __str__(self):
+        raise RuntimeError("this exception cannot be rendered")
+
+
+class ProgFrozen(ProgErr):
+    """an exception whose instances reject new attributes (a frozen dataclass exception, __slots__): nothing can be attached"""
+
+    def __setattr__(self, name, value):
+        raise AttributeError(f"cannot assign to field {name!r}")
+
+
+class ProgEmpty(ProgErr):
+    """an exception without a message: str(exc) == "" """
+
+    def __init__(self, *_):
+        super().__init__()
+
+
 # "OwnCancelled": the body itself ends with a CancelledError although nobody asked its task to cancel (it awaited something
 # that was cancelled, or raises one to abort): a body outcome like any other failure
-EXC = {"Exception": ProgErr, "ExcSubclass": ProgErrSub, "BaseExc": ProgBase, "FalsyExc": ProgFalsy, "GenExit": GeneratorExit, "OwnCancelled": asyncio.CancelledError}
+EXC = {"Exception": ProgErr, "ExcSubclass": ProgErrSub, "BaseExc": ProgBase, "FalsyExc": ProgFalsy, "GenExit": GeneratorExit, "OwnCancelled": asyncio.CancelledError,
+       "StrRaisesExc": ProgStrRaises, "FrozenExc": ProgFrozen, "EmptyExc": ProgEmpty}  # fmt: skip
 
 
 _UNSET = "unset"
@@ -356,7 +402,7 @@ class Run:
 
     def label(self, obj):
         lbl = self.labels.get(id(obj))
-        return lbl if lbl is not None else ("unknown", type(obj).__name__, repr(obj))
+        return lbl if lbl is not None else ("unknown", family_name(type(obj)), repr(obj))
 
     def gate(self, g):
         """awaitable that completes when gate g is released; every waiter gets its own future (an Event), so that
@@ -674,6 +720,10 @@ class Double:
                     await asyncio.sleep(beh.get("t", 1))
             except asyncio.CancelledError:
                 self.run.ev(f"d_{phase}_cancelled", self.path, j=self.j)
+                if beh.get("absorb"):
+                    # best-effort cleanup / set-up that shrugs an interruption off (`except CancelledError: pass` around a
+                    # flush): it runs in a helper task of the library, so the scope's own cancellation is not its to absorb
+                    return
                 raise
         if b.endswith("raise") or b.endswith("raise_base") or b.endswith("raise_cancelled"):
             # "raise_cancelled": the disposable's OWN CancelledError (it stopped an internal worker with cancel() and awaited
@@ -811,8 +861,8 @@ def execute(prog, inject_at=None, releases=(), run_cls=Run, after=None):
 def sv_strategy():
     from hypothesis import strategies as st
 
-    names = ["A", "A", "B", "R", "A2", "G[int]", "G[str]", "G", "F", "U", "M"]
-    return st.builds(lambda n, v: {"type": n, "v": v}, st.sampled_from(names), st.integers(1, 9))
+    names = ["A", "A", "B", "R", "A2", "G[int]", "G[str]", "G", "F", "U", "M", "T1", "T2", "GQ1", "GQ2"]
+    return st.builds(lambda n, v: {"type": n, "v": None if n == "M" and v % 2 == 0 else v}, st.sampled_from(names), st.integers(1, 9))
 
 
 OK_BEH = {"b": "ok"}
